@@ -119,7 +119,7 @@ void ref_model(const row_t *row, const gcase_t *c, const unsigned char *d0, cons
         /* like memccpy(): bytes up to and including the first c are copied (at most n) */
         size_t k;
         if (c->n == 0 || c->n > n) return;
-        if (c->val > 255 || c->val < 0) return;      /* memccpy converts c to unsigned char; the doc does not define larger values */
+        /* memccpy converts c to unsigned char; so does the reference, whatever int is passed (-1 stops at 0xFF) */
         for (k = 0; k < c->n; k++) if (s0[k] == (unsigned char)c->val) break;
         if (k == c->n) return;                 /* stop character absent: truncation rules not modelled */
         memcpy(x, s0, k + 1);
